@@ -336,6 +336,7 @@ class Sim:
             "n_batches": len(self.hw.batches),
             "has_error": e.has_error_state(),
             "uex": [(r.name, r.source == "user") for r in e._command_manager.cmd_executing if r.name in UCMDS],
+            "simulated": [bool(e.uod.tags[n].simulated) for n in REGS],
         }
 
     # -- ops ---------------------------------------------------------------------------
